@@ -269,7 +269,7 @@ func cmdCheck(args []string) int {
 				return
 			}
 			v := pickVariant(p, i)
-			jobs <- scen.Job{Scenario: v.Scenario, Seed: seed*1_000_003 + uint64(i), Params: v.Params, Sample: i < 3}
+			jobs <- scen.Job{Scenario: v.Scenario, Seed: seed*1_000_003 + uint64(i), Params: v.Params, Sample: i < 3, Property: p.ID}
 		}
 	}()
 	lastPrint := time.Now()
